@@ -111,7 +111,9 @@ def build(d, real=False):
     cfg_scope = scope if how == "config" else None if how == "cli" else d.choice(["default", "global", "branch"])
     cli_scope = None if how == "config" else scope
     return {"ast": nodes, "state": state, "old": text, "tags": tags, "scope": scope, "cfg_scope": cfg_scope, "cli_scope": cli_scope,
-            "ignore": d.chance(1, 4), "flags": flags, "date": date}
+            "ignore": d.chance(1, 4), "flags": flags, "date": date,
+            # real repositories only: .git as a directory, or as a "gitdir:" file (linked worktrees, submodules, --separate-git-dir)
+            "layout": d.choice(["plain", "plain", "gitfile"]) if real else "plain"}
 
 
 def expectation(case):
@@ -227,6 +229,7 @@ def check_real(case):
     if "discard" in case:
         return discard(case["discard"])
     tmp = tempfile.mkdtemp(prefix="c09r_")
+    gitdir = None
     try:
         projgen.write_file(tmp, "bumpver.toml", config_text(case))
         gitbox.init(tmp)
@@ -244,11 +247,21 @@ def check_real(case):
                 gitbox.git(tmp, "tag", t)
             gitbox.git(tmp, "checkout", "-q", "main")
         gitbox.git(tmp, "commit", "-q", "--allow-empty", "-m", "head")
+        if case.get("layout") == "gitfile":
+            gitdir = tmp + "_gitdir"
+            shutil.move(os.path.join(tmp, ".git"), gitdir)
+            projgen.write_file(tmp, ".git", "gitdir: %s\n" % gitdir)
+            gitbox.git(tmp, "tag", "--list")  # (raises if git does not accept the layout)
         env = gitbox.env(tmp)
         date = dt.date.fromisoformat(case["date"])
-        return judge(case, lambda args: bv.run(args, cwd=tmp, env=env, today=date), True)
+        out = judge(case, lambda args: bv.run(args, cwd=tmp, env=env, today=date), True)
+        if case.get("layout") == "gitfile":
+            out.classes = tuple(out.classes) + ("dot-git-is-a-file",)
+        return out
     finally:
         shutil.rmtree(tmp, ignore_errors=True)
+        if gitdir:
+            shutil.rmtree(gitdir, ignore_errors=True)
 
 
 PARTS = [
